@@ -13,6 +13,10 @@ KW_CASE = ("lower", "lower", "lower", "upper", "mixed")
 class G:
     def __init__(self, rnd, size=3):
         self.r = rnd
+        # independent stream for constructs added later, so that designs which do not use them stay exactly as they were
+        import random as _random
+
+        self.r2 = _random.Random(hash(rnd.getstate()[1][:8]))
         self.size = size
         self.kwcase = rnd.choice(KW_CASE)
         self.n = 0
@@ -393,11 +397,16 @@ class G:
     def context(self):
         t = []
         if self.chance(0.8):
-            t += [self.kw("library"), "ieee", ";", "\n", self.kw("use"), "ieee", ".", "std_logic_1164", ".", self.kw("all"), ";", "\n"]
+            t += [self.kw("library"), "ieee", ";", "\n"]
+            if self.r2.random() < 0.2:
+                t += ["\n"]
+            t += [self.kw("use"), "ieee", ".", "std_logic_1164", ".", self.kw("all"), ";", "\n"]
             if self.chance(0.5):
                 t += [self.kw("use"), "ieee", ".", "numeric_std", ".", self.kw("all"), ";", "\n"]
             if self.chance(0.2):
                 t += [self.kw("library"), "work", ";", "\n", self.kw("use"), "work", ".", "pkg_x", ".", self.kw("all"), ";", "\n"]
+            if self.r2.random() < 0.2:
+                t += [self.kw("context"), "work", ".", "common_ctx", ";", "\n"]
             t += ["\n"]
         return t
 
